@@ -218,7 +218,7 @@ class Check(Prop):
             "literals, indexing by literal index/key, push and << growth, hash stores, chains of valid calls, reassignment. Oracle: a "
             "reference model carries a type per variable (scalar/union set, array element set, hash key->class); `dbtp v` after every "
             "step and for every variable at the end must equal the model structurally (sets, order-insensitive). Nested arrays and "
-            "absent hash keys are not generated. A third of the cases instead use C07's generated configurations and call programs: the result of every certainly valid call (before the first line that is not certainly valid) must have the declared return type with Self and unions resolved, also for union receivers. Non-trivial = an asserted probe whose type comes from a return-type resolution, an "
+            "absent hash keys are not generated. A third of the cases instead use C07's generated configurations and call programs: the result of every certainly valid call (also after rejected calls: every call has its own receiver and literal arguments) must have the declared return type with Self and unions resolved, also for union receivers. Non-trivial = an asserted probe whose type comes from a return-type resolution, an "
             "array/hash operation, a union or a reassignment; distinct by SHA-1(program).")
     ASSUMPTIONS = (
         "the configuration is written by hand from the documentation, the model never reads ti's loader",
@@ -238,7 +238,8 @@ class Check(Prop):
         step = st.fixed_dictionaries({"r": st.integers(0, 99), "x": st.integers(0, 50), "y": st.integers(0, 50), "z": st.integers(0, 50)})
         steps = st.fixed_dictionaries({"steps": st.lists(step, min_size=4, max_size=10)})
         calls = callprog.call_program(valid=True, nest=False, ncalls=(2, 6))
-        return st.one_of(steps, steps, calls)
+        mixed = callprog.call_program(valid=False, nest=False, ncalls=(3, 7))
+        return st.one_of(steps, steps, calls, mixed)
 
     def sample(self, case):
         if "steps" not in case:
@@ -264,7 +265,10 @@ class Check(Prop):
         nontrivial = False
         for p, v, why, app in vs:
             if v != "MUST_OK":
-                break
+                # every call has a receiver and arguments of its own (fresh literals), so a rejected call before this one is
+                # no excuse: the certainly valid calls after it still get their declared type
+                labels.append("after-rejected-call")
+                continue
             want = set()
             ok = True
             for c, oks in app:
